@@ -37,7 +37,8 @@ def r1(ctx):
     creates = [c for c in calls_named(fi, "create") if norm(c.func) == "PacketHeader.create"]
     if not ctx.require("C03.R1", fi, "PacketHeader.create call in _build_packet_impl", len(creates), 1):
         return
-    all_creates = [(f, c) for (f, c) in package_calls(ctx.repo, "create") if norm(c.func) == "PacketHeader.create"]
+    # (the decoder may build the header object of a *received* datagram through the same factory: that header is never emitted)
+    all_creates = [(f, c) for (f, c) in package_calls(ctx.repo, "create") if norm(c.func) == "PacketHeader.create" and f.qual != "connection:PacketHeader.from_bytes"]
     ctx.check(len(all_creates) == 1, "C03.R1", fi, "PacketHeader.create call sites in the package",
               "headers of emitted packets are created at exactly one site", witness=[f.qual for f, c in all_creates])
     incs = [n for n in cfg.stmts((ast.AugAssign,)) if norm(n.ast.target) == "self.seq_sending" and isinstance(n.ast.op, ast.Add)
